@@ -217,6 +217,14 @@ func (e *env) isSynced(ts uint64) bool {
 	return d < thor.BlockInterval()*6
 }
 
+// energyOf is the payer's VTHO as the pool and the packer see it for the block after the current head.
+func (e *env) energyOf(a *acct) *big.Int {
+	best := e.best()
+	v, err := builtin.Energy.Native(e.net.God.Stater.NewState(best.Root()), best.Header.Timestamp()+thor.BlockInterval()).Get(a.addr)
+	must(err)
+	return v
+}
+
 // units converts a wei amount that must be a multiple of the unit.
 func units(v *big.Int) int64 {
 	q, r := new(big.Int).QuoRem(v, unit, new(big.Int))
@@ -243,7 +251,7 @@ func digits(v *big.Int) []int64 {
 		return []int64{}
 	}
 	if v.Sign() < 0 {
-		harnessErr("negative priority %s", v)
+		return []int64{-1, 0, 0} // below every real value (a fee cap under the base fee gives a negative priority)
 	}
 	m := big.NewInt(1_000_000_000)
 	x := new(big.Int).Set(v)
@@ -273,6 +281,8 @@ type txParams struct {
 	dep       *txSpec
 	reverting bool // the clause reverts when executed (VTHO transfer above the balance)
 	to        *acct
+	drain     *big.Int // the clause transfers this much VTHO away from the origin
+	clauses   int      // > 0: that many plain zero-value clauses (block filler)
 }
 
 // nextBaseFee is the base fee of the block after the current head (nil before GALACTICA).
@@ -305,6 +315,27 @@ func (e *env) expectedPrio(t *tx.Transaction, gala bool) *big.Int {
 	return t.EffectivePriorityFeePerGas(new(big.Int).SetUint64(thor.InitialBaseFee), e.baseGP, work)
 }
 
+// feeCap is the most a tx pays per gas: the legacy gas price (proved work excluded), or maxFeePerGas.
+func feeCap(t *tx.Transaction, baseGP *big.Int) *big.Int {
+	if t.Type() == tx.TypeLegacy {
+		return t.EffectiveGasPrice(nil, baseGP)
+	}
+	return t.MaxFeePerGas()
+}
+
+// truePrio is the effective priority fee of t for the block after the current head (the packer's view).
+func (e *env) truePrio(t *tx.Transaction) *big.Int {
+	best := e.best()
+	ch := e.net.God.Repo.NewChain(best.Header.ID())
+	work, err := t.ProvedWork(best.Header.Number()+1, ch.GetBlockID)
+	must(err)
+	bf := e.nextBaseFee()
+	if bf == nil {
+		return t.OverallGasPrice(e.baseGP, work)
+	}
+	return t.EffectivePriorityFeePerGas(bf, e.baseGP, work)
+}
+
 // build signs a tx; sameBodyAs != nil re-signs that tx's body (same id) with another delegator.
 func (e *env) build(p txParams, sameBodyAs *txSpec) *txSpec {
 	var body *tx.Transaction
@@ -333,7 +364,16 @@ func (e *env) build(p txParams, sameBodyAs *txSpec) *txSpec {
 		if p.to != nil {
 			to = p.to.addr
 		}
-		if p.reverting {
+		if p.clauses > 0 {
+			for i := 0; i < p.clauses; i++ {
+				b.Clause(tx.NewClause(&to).WithValue(big.NewInt(0)))
+			}
+		} else if p.drain != nil {
+			method, _ := builtin.Energy.ABI.MethodByName("transfer")
+			data, err := method.EncodeInput(to, p.drain)
+			must(err)
+			b.Clause(tx.NewClause(&builtin.Energy.Address).WithData(data))
+		} else if p.reverting {
 			method, _ := builtin.Energy.ABI.MethodByName("transfer")
 			huge := new(big.Int).Lsh(big.NewInt(1), 200)
 			data, err := method.EncodeInput(to, huge)
@@ -385,7 +425,7 @@ func (e *env) register(s *txSpec) {
 		dlg = s.dlg.name
 	}
 	e.evs.emit(trace.Ev{"e": "Tx", "h": s.h, "tx": map[string]any{
-		"id": s.id, "org": s.org.name, "dlg": dlg, "cost": units(s.cost), "prio": digits(e.expectedPrio(t, true)), "prio0": digits(e.expectedPrio(t, false)),
+		"id": s.id, "org": s.org.name, "dlg": dlg, "cost": units(s.cost), "cap": digits(feeCap(t, e.baseGP)), "prio": digits(e.expectedPrio(t, true)), "prio0": digits(e.expectedPrio(t, false)),
 		"ref": t.BlockRef().Number(), "exp": t.Expiration(), "dep": s.dep, "typed": t.Type() != tx.TypeLegacy,
 	}})
 }
@@ -423,7 +463,11 @@ func (e *env) headEvent() {
 	}
 	synced := e.isSynced(h.Timestamp())
 	e.heads = append(e.heads, headFact{h.Number(), h.Timestamp(), synced})
-	e.evs.emit(trace.Ev{"e": "Head", "hd": map[string]any{"num": h.Number(), "incl": incl, "rev": rev, "energy": en,
+	bf := e.nextBaseFee()
+	if bf == nil {
+		bf = new(big.Int)
+	}
+	e.evs.emit(trace.Ev{"e": "Head", "hd": map[string]any{"num": h.Number(), "incl": incl, "rev": rev, "energy": en, "basefee": digits(bf),
 		"gala": h.Number()+1 >= e.net.FC.GALACTICA, "synced": synced}})
 }
 
